@@ -486,3 +486,24 @@ def check_C15(seq, before, after, op, ok, ctx, est):
             if pp and buf.ti < pp[-1].tf + pp[-1].type.fall_time(ch, in_eom_mode=False):
                 out.append(f"{name}: EOM start buffer begins at {buf.ti} before the previous pulse ramped down")
     return out
+
+
+def boundaries(cfg, ops, build_device, apply_op, Register, Sequence):
+    """instruction end times of the history when the device has no maximum sequence duration"""
+    cfg0 = dict(cfg, max_sequence_duration=None)
+    dev = build_device(cfg0)
+    n = cfg["n_atoms"]
+    reg = Register({f"q{i}": (6.0 * i, 0.0) for i in range(n)})
+    seq = Sequence(reg, dev)
+    ctx = dict(reg=reg, qids=[f"q{i}" for i in range(n)], cfg=cfg0, dev=dev)
+    out = set()
+    for op in ops:
+        try:
+            apply_op(seq, op, ctx)
+        except Exception:
+            pass
+        for cs in seq._schedule.values():
+            for sl in cs.slots:
+                if sl.tf > 0:
+                    out.add(int(sl.tf))
+    return out
